@@ -68,8 +68,25 @@ def check_zero_width(rep):
 
 def check_epath_limits(rep):
     """EPATH is a codec too: a path whose word count does not fit the one-byte length prefix is outside its domain."""
-    from pycomm3.cip import PADDED_EPATH, PACKED_EPATH, LogicalSegment, DataSegment
+    from pycomm3.cip import PADDED_EPATH, PACKED_EPATH, LogicalSegment, DataSegment, PortSegment
     from pycomm3.exceptions import DataError
+
+    # segment fields outside their domain: refused by every way of encoding the segment
+    bad_segments = [("port", lambda v=v: PortSegment(v, 1), v) for v in (-1, -16, -65536, 0x10000, 1 << 40, 1.5, None, "nosuchport", b"\x01", [1], True if False else 2.0)]
+    bad_segments += [("link", lambda v=v: PortSegment("bp", v), v) for v in (-1, 256, 1 << 32, 1.5, None, "256", "-1", "1.2.3", "", [1])]
+    bad_segments += [("logical", lambda v=v: LogicalSegment(v, "instance_id"), v) for v in (-1, 1 << 32, 1 << 64, 1.5, None, "1", b"", b"\x01\x02\x03", [1])]
+    bad_segments += [("logical-type", lambda v=v: LogicalSegment(1, v), v) for v in ("instance", "", None, 3)]
+    for what, mk, v in bad_segments:
+        for ename, enc in (("segment.encode", lambda s: s.encode(s)), ("segment.encode-padded", lambda s: s.encode(s, padded=True)), ("PADDED_EPATH", lambda s: PADDED_EPATH.encode([s], length=True)), ("PACKED_EPATH", lambda s: PACKED_EPATH.encode([s]))):
+            try:
+                out = ("returned", bytes(enc(mk())))
+            except DataError:
+                out = ("dataerror",)
+            except Exception as e:  # noqa
+                out = ("foreign", type(e).__name__)
+            rep.case(("segment-invalid", what, repr(v), ename), outcome="seg:" + out[0])
+            if out[0] != "dataerror":
+                rep.violation(f"segment-field/{'encode-silent' if out[0] == 'returned' else 'encode-foreign-exception'}/{what}", f"{what} = {v!r} through {ename} -> {out!r:.80} (value is outside the field's domain)", {"kind": "epath-limits"})
 
     for cls, cname in ((PADDED_EPATH, "PADDED_EPATH"), (PACKED_EPATH, "PACKED_EPATH")):
         for words in (1, 2, 254, 255, 256, 257, 300, 1000):
